@@ -585,3 +585,44 @@ pub fn executed_libfuncs(prog: &Prog, rec: &RunRecord, out: &mut HashSet<String>
 
 #[allow(dead_code)]
 fn _unused(_: Hint) {}
+
+/// Generic libfunc names statically reachable from `func` (following branches and user function
+/// calls). Unlike the trace this also sees libfuncs that compile to no instructions.
+pub fn reachable_libfuncs(program: &Program, func: &Function) -> HashSet<String> {
+    use cairo_lang_sierra::program::{BranchTarget, GenericArg};
+    let decls: HashMap<u64, (&str, Option<usize>)> = program
+        .libfunc_declarations
+        .iter()
+        .map(|d| {
+            let callee = d.long_id.generic_args.iter().find_map(|a| match a {
+                GenericArg::UserFunc(f) => program.funcs.iter().position(|x| x.id == *f),
+                _ => None,
+            });
+            (d.id.id, (d.long_id.generic_id.0.as_str(), callee))
+        })
+        .collect();
+    let mut out = HashSet::new();
+    let mut seen = vec![false; program.statements.len()];
+    let mut stack = vec![func.entry_point.0];
+    while let Some(i) = stack.pop() {
+        if i >= seen.len() || seen[i] {
+            continue;
+        }
+        seen[i] = true;
+        if let Statement::Invocation(inv) = &program.statements[i] {
+            if let Some((name, callee)) = decls.get(&inv.libfunc_id.id) {
+                out.insert(name.to_string());
+                if let Some(c) = callee {
+                    stack.push(program.funcs[*c].entry_point.0);
+                }
+            }
+            for b in &inv.branches {
+                stack.push(match b.target {
+                    BranchTarget::Fallthrough => i + 1,
+                    BranchTarget::Statement(s) => s.0,
+                });
+            }
+        }
+    }
+    out
+}
